@@ -231,21 +231,27 @@ impl<C: ContentAddrStore> UnsealedState<C> {
     }
 
     fn move_action_fee_multiplier(&mut self, after_tip_901: bool, action: ProposerAction) {
-        let max_movement = if after_tip_901 {
-            ((self.fee_multiplier >> 7) as i64).max(2)
+        // computed in u128 on the magnitude of the delta: casting to i64 truncates multipliers above 2^70 and overflows
+        // the product above 2^63, and subtracting the step from a multiplier of 0 or 1 wrapped around
+        let max_movement: u128 = if after_tip_901 {
+            (self.fee_multiplier >> 7).max(2)
         } else {
-            (self.fee_multiplier >> 7) as i64
+            self.fee_multiplier >> 7
         };
-        let scaled_movement = max_movement * action.fee_multiplier_delta as i64 / 128;
+        let delta_magnitude = action.fee_multiplier_delta.unsigned_abs() as u128;
+        // max_movement * delta_magnitude / 128, rounded towards zero, without overflowing
+        let scaled_movement =
+            (max_movement / 128) * delta_magnitude + (max_movement % 128) * delta_magnitude / 128;
         log::debug!(
-            "changing fee multiplier {} by {}",
+            "changing fee multiplier {} by {} (delta {})",
             self.fee_multiplier,
-            scaled_movement
+            scaled_movement,
+            action.fee_multiplier_delta
         );
-        if scaled_movement >= 0 {
-            self.fee_multiplier += scaled_movement as u128;
+        if action.fee_multiplier_delta >= 0 {
+            self.fee_multiplier = self.fee_multiplier.saturating_add(scaled_movement);
         } else {
-            self.fee_multiplier -= scaled_movement.unsigned_abs() as u128;
+            self.fee_multiplier = self.fee_multiplier.saturating_sub(scaled_movement);
         }
     }
 
